@@ -26,7 +26,7 @@ RELABEL = {
     'memo_position': {'C06': ['C06'], 'C09': ['C09', 'C05'], '*': ['C05']}, 'derives_empty': {'*': ['C01']},
     'leftrec_check': {'C10': ['C10'], '*': ['C07', 'C14']}, 'leftrec_memoize': {'C10': ['C10'], 'C01': ['C07', 'C05', 'C01'], '*': ['C07', 'C05']},
     'ws_literal_leading_space': {'C01': ['C08', 'C01'], '*': ['C08']}, 'ws_custom_literal_space': {'*': ['C08']},
-    'string_skipping': {'C09': ['C09', 'C08'], '*': ['C08']}, 'memo_ws_from_noskip': {'C09': ['C09', 'C05'], '*': ['C05']},
+    'string_skipping': {'C09': ['C09', 'C08', 'C02'], '*': ['C08']}, 'memo_ws_from_noskip': {'C09': ['C09', 'C05'], '*': ['C05']},
     'position_closure': {'*': ['C09', 'C08']}, 'string_override': {'*': ['C02']}, 'optional_nested': {'C02': ['C02'], 'C10': ['C10'], '*': ['C01']},
     'include_fieldless_check': {'*': ['C13']}, 'include_chain': {'*': ['C13']},
     'leftrec_memo_inner': {'C06': ['C06'], 'C10': ['C10'], '*': ['C07', 'C05']},
@@ -35,6 +35,10 @@ RELABEL = {
     'check_position': {'C09': ['C09'], '*': ['C14']}, 'seq_rebind': {'*': ['C02']}, 'string_insensitive': {'*': ['C02']},
     'opt_choice_fields': {'*': ['C02']}, 'choice_arm_choice_fields': {'*': ['C02']}, 'position_string_utf8': {'*': ['C09']},
     'include_same_name_other_body': {'C01': ['C13', 'C08'], '*': ['C13']},
+    'char_rule_single': {'C10': ['C10'], '*': ['C14', 'C01']}, 'include_diamond': {'*': ['C13']}, 'include_boxed': {'*': ['C13']},
+    'memo_include': {'*': ['C05', 'C13', 'C14']}, 'leftrec_unnamed': {'C10': ['C10'], '*': ['C07']}, 'leftrec_optional_tail': {'C10': ['C10'], '*': ['C07', 'C02']},
+    'ws_lookahead_tail': {'C09': ['C09', 'C08'], '*': ['C08']}, 'memo_position_two_entries': {'C09': ['C09', 'C05'], '*': ['C05']},
+    'ws_choice_then_char': {'C02': ['C02', 'C08'], '*': ['C08']}, 'memo_lookahead_reuse': {'C10': ['C10'], '*': ['C05']},
     'enum_field': {'*': ['C02']}, 'boxed': {'*': ['C02']}, 'box_merge': {'*': ['C02']}, 'override_simple': {'*': ['C02']}, 'override_enum': {'*': ['C02']},
 }
 # driver-level verdicts (reject / compile / same_as) and compile errors are attributed to:
@@ -87,7 +91,8 @@ def possible_labels(sdef):
     if sdef.cmp_fields and sdef.extract: ls.add('C02')
     if 'o.x[' in (sdef.extract or ''): ls.add('C09')
     if sdef.cmp_err or any(getattr(r, 'leftrec', False) for r in sdef.rules): ls.add('C10')
-    if sdef.user_ctx or sdef.extern_str: ls.add('C14')
+    # an operand that is not handed the remaining input at the current offset (label C14) can show wherever blanks can stand at a call
+    if sdef.user_ctx or sdef.extern_str or (sdef.ops and ' ' in (sdef.alphabet or '')): ls.add('C14')
     return ls
 
 def outputs_of(name, sdef, SCHEMAS=None):
